@@ -453,11 +453,13 @@ impl Session {
                     key: key.clone(),
                     ..Default::default()
                 };
-                e.own = self.held_for(&key);
+                // every lookup of the phrase selector uses the strategy it was opened with (state token 8)
+                let fz = step::sections(snap)[0].split(' ').nth(8) == Some("1");
+                e.own = self.held_for(&key, fz);
                 if range.len() == 1 && key.len() == 1 {
                     let alts: Vec<Syllable> = self.lay.borrow().alt_syllables(key[0]).to_vec();
                     for a in alts {
-                        e.alt.extend(self.held_for(&[a]));
+                        e.alt.extend(self.held_for(&[a], fz));
                     }
                 }
                 // is there a longer range `init` would have had to offer first?
@@ -470,7 +472,7 @@ impl Session {
                         limit += 1;
                     }
                     for e2 in info.end + 1..=limit {
-                        if (info.begin..e2).all(is_syl) && !self.held_for(&key_of(info.begin, e2)).is_empty() {
+                        if (info.begin..e2).all(is_syl) && !self.held_for(&key_of(info.begin, e2), fz).is_empty() {
                             e.longer = Some((info.begin, e2));
                         }
                     }
@@ -482,7 +484,7 @@ impl Session {
                         lo -= 1;
                     }
                     for b2 in lo..info.begin {
-                        if (b2..info.end).all(is_syl) && !self.held_for(&key_of(b2, info.end)).is_empty() {
+                        if (b2..info.end).all(is_syl) && !self.held_for(&key_of(b2, info.end), fz).is_empty() {
                             e.longer = Some((b2, info.end));
                         }
                     }
@@ -493,12 +495,22 @@ impl Session {
         Some(v)
     }
 
-    /// every phrase some layer holds for exactly `key` (user layer: pending entries minus tombstones)
-    fn held_for(&self, key: &[Syllable]) -> Vec<String> {
+    /// every phrase some layer holds for `key` under the lookup strategy in force — exactly `key`, or
+    /// (`fuzzy`, `FuzzyPartialPrefix`) a stored key of the same number of syllables each of which
+    /// `starts_with` the query's; all layers are in-memory `TrieBuf`s, which match their pending entries by
+    /// prefix since fix 097161a (F36) — user layer: pending entries minus the tombstones of their own key
+    fn held_for(&self, key: &[Syllable], fuzzy: bool) -> Vec<String> {
+        let m = |k: &[Syllable]| -> bool {
+            if fuzzy {
+                k.len() == key.len() && k.iter().zip(key).all(|(a, b)| a.starts_with(*b))
+            } else {
+                k == key
+            }
+        };
         let mut out: Vec<String> = vec![];
         for layer in &self.sys {
             for (k, p, _) in layer {
-                if k.as_slice() == key && !out.contains(p) {
+                if m(k.as_slice()) && !out.contains(p) {
                     out.push(p.clone());
                 }
             }
@@ -506,7 +518,7 @@ impl Session {
         // SAFETY: see dict_s
         let (btree, grave, _, _, _) = unsafe { (*self.user).verif_snapshot() };
         for (k, p, _, _) in &btree {
-            if k.as_slice() == key && !grave.iter().any(|(gk, gp)| gk.as_slice() == key && gp == p) && !out.contains(p) {
+            if m(k.as_slice()) && !grave.iter().any(|(gk, gp)| gk == k && gp == p) && !out.contains(p) {
                 out.push(p.clone());
             }
         }
@@ -723,7 +735,7 @@ fn noword_scenario(r: &mut Rng, s: &Session, pool: &[(Syllable, Vec<KeyCode>)], 
         for k in seq {
             last = l.key_press(kb.map(*k));
         }
-        if last == KeyBehavior::Commit && !l.read().is_empty() && s.held_for(&[l.read()]).is_empty() && !cands.iter().any(|c| c.0 == l.read()) {
+        if last == KeyBehavior::Commit && !l.read().is_empty() && s.held_for(&[l.read()], false).is_empty() && !cands.iter().any(|c| c.0 == l.read()) {
             cands.push((l.read(), seq));
         }
     }
